@@ -30,6 +30,7 @@ type stormSpec struct {
 	StallMs   int `json:"stall_ms"`
 	SlowSends int `json:"slow_sends"` // every n-th envelope makes the send function sleep 1 ms (a slow socket)
 	Stalled   int `json:"stalled"`    // members whose socket write blocks for the whole storm; other connections replace them (same peer id)
+	Checkers  int `json:"checkers"`   // goroutines that join a session which keeps becoming empty, and expect to be listed and routable at once
 	Failing   int `json:"failing"`    // members whose socket write fails at the first envelope; their handler removes them a little later
 }
 
@@ -135,6 +136,49 @@ func stormCase(args []string) string {
 				}
 				rm()
 				ops.Add(1)
+			}
+		})
+	}
+	// a session that keeps becoming empty (its map is garbage-collected by the last leaver) while others join it: whoever Add
+	// returned for is registered - listed and routable - until it leaves
+	var lostReg atomic.Int64
+	var lostDetail atomic.Value
+	for c := 0; c < g.Checkers; c++ {
+		c := c
+		guard(fmt.Sprintf("flapper%d", c), func() {
+			for i := 0; ; i++ {
+				select {
+				case <-stop:
+					return
+				default:
+				}
+				rm := h.Add("gc", peers.Peer{PeerID: fmt.Sprintf("flap%d", c), Role: "receiver", ConnID: fmt.Sprintf("fl-%d-%d", c, i)}, send(), func() {})
+				rm()
+				ops.Add(2)
+			}
+		})
+		guard(fmt.Sprintf("checker%d", c), func() {
+			for i := 0; ; i++ {
+				select {
+				case <-stop:
+					return
+				default:
+				}
+				me := fmt.Sprintf("chk%d", c)
+				rm := h.Add("gc", peers.Peer{PeerID: me, Role: "receiver", ConnID: fmt.Sprintf("ck-%d-%d", c, i)}, send(), func() {})
+				routable := h.SendTo("gc", me, env)
+				listed := false
+				for _, p := range h.List("gc") {
+					if p.PeerID == me {
+						listed = true
+					}
+				}
+				if !routable || !listed {
+					lostReg.Add(1)
+					lostDetail.Store(fmt.Sprintf("%s after Add: routable=%v listed=%v", me, routable, listed))
+				}
+				rm()
+				ops.Add(4)
 			}
 		})
 	}
@@ -252,6 +296,10 @@ func stormCase(args []string) string {
 	var ps []string
 	panics.Range(func(k, v any) bool { ps = append(ps, fmt.Sprintf("%v: %v", k, v)); return true })
 	out["panics"] = ps
+	out["lost_registrations"] = lostReg.Load()
+	if v := lostDetail.Load(); v != nil {
+		out["lost_registration_example"] = v.(string)
+	}
 	out["ops"] = ops.Load()
 	out["delivered"] = delivered.Load()
 	reg, conns, _, _ := h.VerifTables()
